@@ -17,6 +17,7 @@ import (
 	"strconv"
 	"strings"
 	"sync"
+	"sync/atomic"
 	"time"
 
 	glog "github.com/AdguardTeam/golibs/log"
@@ -271,12 +272,16 @@ func runParent(p *Prop, env *Env, nworkers int) int {
 	}
 	var mu sync.Mutex
 	var wg sync.WaitGroup
+	var aborted atomic.Bool
 	for wn := 0; wn < nworkers; wn++ {
 		wg.Add(1)
 		go func(wn int) {
 			defer wg.Done()
 			start := 0
 			for restarts := 0; ; restarts++ {
+				if aborted.Load() {
+					return
+				}
 				stderrPath := filepath.Join(workDir, fmt.Sprintf("w%d.stderr.%d", wn, restarts))
 				ef, _ := os.Create(stderrPath)
 				cmd := exec.Command(self,
@@ -316,6 +321,17 @@ func runParent(p *Prop, env *Env, nworkers int) int {
 
 						break wait
 					case <-tick.C:
+						if aborted.Load() {
+							// Another worker found a case that does not return: the
+							// verdict is settled, the rest of the run is skipped.
+							_ = cmd.Process.Kill()
+							<-done
+							watchdog.Stop()
+							tick.Stop()
+							_ = ef.Close()
+
+							return
+						}
 						jb, _ := os.ReadFile(journalPath)
 						js := strings.TrimSpace(string(jb))
 						if js != lastJournal {
@@ -351,8 +367,14 @@ func runParent(p *Prop, env *Env, nworkers int) int {
 						}
 						m.Violations = append(m.Violations, v)
 						m.SigCount[v.Sig]++
+						if !aborted.Swap(true) {
+							m.Notes = append(m.Notes, fmt.Sprintf("case %d does not return; the remaining cases of the run were skipped", idx))
+						}
 					}
 					mu.Unlock()
+					if aborted.Load() {
+						return
+					}
 					start = idx + 1
 
 					continue
@@ -412,7 +434,10 @@ func runParent(p *Prop, env *Env, nworkers int) int {
 	}
 	wg.Wait()
 
-	violFiles := runCold(p, env, self, workDir, total, m)
+	var violFiles []string
+	if !aborted.Load() {
+		violFiles = runCold(p, env, self, workDir, total, m)
+	}
 
 	// Collect streamed violations.
 	for wn := 0; wn < nworkers; wn++ {
@@ -454,7 +479,7 @@ func stallLimit(t Tier) time.Duration {
 		return 20 * time.Minute
 	}
 
-	return 5 * time.Minute
+	return 3 * time.Minute
 }
 
 // runAlone runs one case as the only case of a process, with the stall limit
